@@ -173,8 +173,16 @@ def finding_still_fails(finding):
 
 def gen(rng):
     lines = []
+    # one paragraph in six is written over a SMALL vocabulary built from two letters: the same neighbours around `*` runs and
+    # around `_` runs, the same word several times - a decision remembered for one occurrence and reused for another (keyed on
+    # too little) shows only when such occurrences share a paragraph
+    vocab = VOCAB
+    if rng.random() < 0.17:
+        a, b = rng.choice(['x', 'foo', '2', 'é']), rng.choice(['y', 'bar', '3', 'n'])
+        vocab = [a + '*' + b, a + '_' + b, '_' + a + '_' + b, a + '_' + b + '_', a + '**' + b, a + '__' + b, a + '*', '*' + b, a + '_', '_' + b,
+                 'and', 'is', a, b, a + '\\' + b, a + '&' + b, a + '<' + b]
     for _ in range(rng.randint(1, 4)):
-        toks = [rng.choice(VOCAB) for _ in range(rng.randint(1, 8))]
+        toks = [rng.choice(vocab) for _ in range(rng.randint(1, 8))]
         sep = ' '
         lines.append(sep.join(toks).strip(' ') if rng.random() < 0.9 else ''.join(toks))
     return lines
